@@ -395,6 +395,7 @@ func behave(ctx context.Context, p *hplug.Plugin, req any) (any, *plugins.Error)
 type obsVault struct {
 	storage.Vault
 	run   *PlanRun
+	more  []*PlanRun // further plans held by the same store (multi-plan stores): writes are attributed by object id
 	snap  bool
 	mu    sync.Mutex
 	snaps []*workflow.Plan
@@ -423,6 +424,13 @@ func (v *obsVault) wrote(id uuid.UUID, c Cell, reason int, err error) {
 	logMu.Lock()
 	if i, ok := v.run.ids[id]; ok {
 		v.run.logLocked(Event{Kind: 'W', Obj: i, C: c, Reason: reason})
+	} else {
+		for _, r := range v.more {
+			if i, ok := r.ids[id]; ok {
+				r.logLocked(Event{Kind: 'W', Obj: i, C: c, Reason: reason})
+				break
+			}
+		}
 	}
 	logMu.Unlock()
 	if v.snap {
